@@ -9,4 +9,5 @@ MAINLOOP = [
     (r"std::list<Edge> (\w+);", ["cyclek_edgelist"], 0),                    # the output list of that cycle
     (r"\bauto (\w+) = k;", ["min_support"], 0),                             # index chosen by the sparsest-support heuristic
     (r"for \(auto (\w+) = k \+ 1; \1 < csd;", ["r"], 0),                    # scan variable of that heuristic
+    (r"for \(std::size_t (\w+) = k \+ 1; \1 < csd;", ["l"], 0),            # row variable of the support-update loop (named in the loop contracts)
 ]
